@@ -333,9 +333,7 @@ pub fn run(ctx: &Ctx) -> Report {
                 }
             }
         }
-        if sample_key(seed, i) < (1u64 << 44) {
-            acc.sample(sample_key(seed, i), json!({"body": hx(&body), "tokens": format!("{toks:?}")}));
-        }
+        acc.maybe_sample(sample_key(seed, i), || json!({"body": hx(&body), "tokens": format!("{toks:?}")}));
     });
     rep.absorb(acc);
     rep.evaluations = rep.acc.get("tree_cases") + rep.acc.get("decode_calls");
